@@ -59,6 +59,9 @@ static std::string state_of(ga::App &a) {
 }
 
 std::string vf_run(const Case &c, vf::Ctx &ctx) {
+  c.spec.set_mode();
+  if (c.spec.short_names) ctx.count("class.one_letter_names_of_depended_on_ports");
+  if (c.spec.nested) ctx.count("class.application_mounted_one_level_down");
   ga::App app(c.spec);
   for (size_t i = 0; i < c.hist.size(); i++) {
     const ga::Set &s = c.hist[i];
@@ -100,10 +103,11 @@ std::string vf_run(const Case &c, vf::Ctx &ctx) {
   {
     auto has = [&](const std::string &a) { for (auto &m : msgs) if (m.compare(0, a.size(), a) == 0 && (m.size() == a.size() || m[a.size()] == ' ' || m[a.size()] == '\n')) return true; return false; };
     for (auto &p : c.spec.root) {
-      if (p.depends && has("/preset") && has(std::string("/") + ga::name_of(p.field))) has_edge = true;
-      if (p.depends_on >= 0 && has(std::string("/") + ga::name_of(p.field)) && (has("/ri") || has("/preset") || (p.depends_on2 >= 0 && has("/rt")))) has_edge = true;
+      const std::string T = ga::top() + "/";
+      if (p.depends && has(T + ga::name_of(ga::PRESET)) && has(T + ga::name_of(p.field))) has_edge = true;
+      if (p.depends_on >= 0 && has(T + ga::name_of(p.field)) && (has(T + ga::name_of(ga::RI)) || has(T + ga::name_of(ga::PRESET)) || (p.depends_on2 >= 0 && has(T + ga::name_of(ga::RT))))) has_edge = true;
     }
-    if (has("/en")) for (auto &m : msgs) if (m.compare(0, 4, "/sub") == 0 || m.compare(0, 5, "/psub") == 0) has_edge = true;
+    if (has(ga::top() + "/" + ga::name_of(ga::EN))) for (auto &m : msgs) if (m.compare(0, ga::top().size() + 4, ga::top() + "/sub") == 0 || m.compare(0, ga::top().size() + 5, ga::top() + "/psub") == 0) has_edge = true;
   }
   size_t tried = 0;
   auto try_perm = [&](const std::vector<size_t> &perm) -> std::string {
